@@ -184,22 +184,18 @@ func c17(e *Env) {
 	}
 	// ---- R5 shared
 	ob5 := r.Ob("R5", "audit-builder:Upstream[in.Path]", "the consumer's audit record links the producer's record under the in-IP's path")
-	if bfn, bctx := e.auditBuilder(); bfn != nil {
+	if bfn, _ := e.auditBuilder(); bfn != nil && e.spine() != nil {
 		found := false
-		for _, n := range gx.Nodes {
-			mu, ok := n.Instr.(*ssa.MapUpdate)
-			if !ok || n.Ctx != bctx {
+		for _, u := range e.recordUpdates() {
+			if u.field != "Upstream" {
 				continue
 			}
-			if f := fieldOfLoad(mu.Map); f == nil || f.Name() != "Upstream" {
-				continue
-			}
-			k, v := e.symbolizer().InCtx(n.Ctx, mu.Key), e.symbolizer().InCtx(n.Ctx, mu.Value)
+			k, v := u.key, u.val
 			if strings.Contains(k.String(), "subStreamIPs") {
 				continue
 			}
 			found = true
-			ob5.Check(isCallSym(k, fnPath) && isCallSym(v, "(*FileIP).AuditInfo") && k.Args[0].String() == v.Args[0].String(), gx.Where(n), "Upstream["+k.String()+"] = "+v.String(), "Upstream["+k.String()+"] = "+v.String())
+			ob5.Check(isCallSym(k, fnPath) && isCallSym(v, "(*FileIP).AuditInfo") && k.Args[0].String() == v.Args[0].String(), e.spine().g.Where(u.n), "Upstream["+k.String()+"] = "+v.String(), "Upstream["+k.String()+"] = "+v.String())
 		}
 		if !found {
 			ob5.Fail(core.FuncName(bfn), "no Upstream entry for ordinary in-IPs")
